@@ -425,6 +425,10 @@ func (i *indexAliasImpl) Close() error {
 	i.mutex.Lock()
 	defer i.mutex.Unlock()
 
+	if !i.open {
+		return ErrorIndexClosed
+	}
+
 	i.open = false
 	return nil
 }
